@@ -73,6 +73,8 @@ pub struct ScenarioOutcome {
     pub log_hash: u64,
     pub overshoot: u64,
     pub sim_ns: u64,
+    /// nodes entered by all searches of the scenario (cost accounting)
+    pub nodes: u64,
     /// the scenario that actually showed the violation when it is not the one asked for
     pub witness: Option<Scenario>,
 }
@@ -174,6 +176,7 @@ pub fn run_scenario(bench: &mut Bench, sc: &Scenario) -> ScenarioOutcome {
         outcome = o;
     }
     out.sim_ns = end_ns.saturating_sub(1_000_000_000);
+    out.nodes = last_state.borrow().searches.iter().map(|s| s.nodes).sum();
     // a timer re-armed inside the same call continues the same overshoot
     let target_rec = target_rec.map(|r| {
         let st = last_state.borrow();
@@ -387,6 +390,10 @@ pub fn run(ctx: &Ctx) -> i32 {
         Tier::Quick => 150,
         Tier::Thorough => 900,
     };
+    let node_budget_per_position: u64 = match ctx.tier {
+        Tier::Quick => 60_000_000,
+        Tier::Thorough => 300_000_000,
+    };
     let rep = run_batch(sims, ctx.workers, |i| {
         let seed = derive(ctx.seed, "C07", i);
         let mut rng = Rng::new(seed);
@@ -509,11 +516,20 @@ pub fn run(ctx: &Ctx) -> i32 {
                 }
                 scs.push(s);
             }
+            // cost cap per position, in nodes (deterministic): on this tree a position's
+            // scenarios take 1-5 M nodes in total; an engine that polls rarely needs far more
+            // to reach a forced expiry read, and the rest of its scenarios is then skipped
+            let mut sim_nodes = 0u64;
             for sc in &scs {
                 if !res.violations.is_empty() {
                     break;
                 }
+                if sim_nodes > node_budget_per_position {
+                    res.probes.add("scenarios_skipped_by_the_node_budget_per_position", 1);
+                    continue;
+                }
                 let o = run_scenario(bench, sc);
+                sim_nodes += o.nodes;
                 if is_explosive && o.faults.get("deadline_expired_mid_search") > 0 {
                     res.probes.add("expiry_in_explosive_position", 1);
                 }
@@ -544,6 +560,7 @@ pub fn run(ctx: &Ctx) -> i32 {
                     });
                 }
             }
+            res.probes.max("max_nodes_spent_on_one_position", sim_nodes);
             if i < 4 {
                 res.sample = Some(json!({"fen": fen, "explosive": is_explosive, "scenarios": scs.len(),
                     "example": scs.last().map(|s| s.to_json())}));
